@@ -65,6 +65,8 @@ var advAlphabets = []string{
 	"\"'`\\ ab\n",
 	"%<>#&|.-+= a1\n",
 	"0123456789_.xob-+e \n",
+	"0xXbBoOdDfF78_9 \n",
+	"\uff11\u0661\u0969\u00b2\u2460 1a.\n",
 	":\"a b'c\n",
 	"<<~-TXTA \n",
 	"%wiIqQrsx[](){}<>| a\n",
